@@ -721,4 +721,276 @@ theorem readBody_len (rblk : Nat) (hr : 0 < rblk) (h : Dic) (body rest : Bytes) 
   · simp [hd]
 
 
+
+
+/-! ### `Dic` lookups -/
+
+theorem dicGet_dicSet_same (d : Dic) (k v : Bytes) : dicGet (dicSet d k v) k = some v := by
+  induction d with
+  | nil => simp [dicSet, dicGet]
+  | cons kv t ih =>
+    obtain ⟨k', v'⟩ := kv
+    unfold dicSet
+    by_cases h1 : k' = k
+    · simp [h1, dicGet]
+    · simp only [h1, if_false]
+      by_cases h2 : ltBytes k k' = true
+      · simp [h2, dicGet]
+      · simp only [h2, Bool.false_eq_true, if_false, dicGet, h1]
+        exact ih
+
+theorem dicGet_dicSet_other (d : Dic) (k v k2 : Bytes) (hne : k2 ≠ k) : dicGet (dicSet d k v) k2 = dicGet d k2 := by
+  induction d with
+  | nil =>
+    have : ¬ k = k2 := fun h => hne h.symm
+    simp [dicSet, dicGet, this]
+  | cons kv t ih =>
+    obtain ⟨k', v'⟩ := kv
+    have hk : ¬ k = k2 := fun h => hne h.symm
+    unfold dicSet
+    by_cases h1 : k' = k
+    · subst h1
+      simp [dicGet, hk]
+    · simp only [h1, if_false]
+      by_cases h2 : ltBytes k k' = true
+      · simp [h2, dicGet, hk]
+      · simp only [h2, Bool.false_eq_true, if_false, dicGet]
+        by_cases h3 : k' = k2
+        · simp [h3]
+        · simp only [h3, if_false]; exact ih
+
+theorem setHeader_of_value {h : Dic} {n v : Bytes} (hv : v ≠ []) : setHeader h n v = dicSet h (capitalized n) v := by
+  unfold setHeader
+  have : v.isEmpty = false := by cases v <;> simp_all
+  simp [this]
+
+/-- headers whose capitalized name differs from `K` do not change what is stored under `K` -/
+theorem foldl_setHeader_preserve (K : Bytes) : ∀ (l : List (Bytes × Bytes)) (d : Dic),
+    (∀ x ∈ l, x.2 ≠ [] ∧ capitalized x.1 ≠ K) → dicGet (l.foldl (fun d nv => setHeader d nv.1 nv.2) d) K = dicGet d K := by
+  intro l
+  induction l with
+  | nil => intro d _; rfl
+  | cons x t ih =>
+    intro d hx
+    have h0 := hx x List.mem_cons_self
+    simp only [List.foldl_cons]
+    rw [ih _ (fun y hy => hx y (List.mem_cons_of_mem _ hy)), setHeader_of_value h0.1]
+    exact dicGet_dicSet_other d _ _ K (fun h => h0.2 h.symm)
+
+/-- the last header line whose capitalized name is `K` is the one that is kept -/
+theorem foldl_setHeader_found (K : Bytes) (l1 l2 : List (Bytes × Bytes)) (n v : Bytes) (d : Dic)
+    (hv : v ≠ []) (hn : capitalized n = K) (h2 : ∀ x ∈ l2, x.2 ≠ [] ∧ capitalized x.1 ≠ K) :
+    dicGet ((l1 ++ (n, v) :: l2).foldl (fun d nv => setHeader d nv.1 nv.2) d) K = some v := by
+  rw [List.foldl_append, List.foldl_cons, foldl_setHeader_preserve K l2 _ h2, setHeader_of_value hv, hn]
+  exact dicGet_dicSet_same _ _ _
+
+theorem dicSet_split (d : Dic) (k v : Bytes) : ∃ l1 l2, dicSet d k v = l1 ++ (k, v) :: l2 ∧ (∀ x ∈ l1, x ∈ d) ∧ (∀ x ∈ l2, x ∈ d) := by
+  induction d with
+  | nil => exact ⟨[], [], by simp [dicSet], by simp, by simp⟩
+  | cons kv t ih =>
+    obtain ⟨k', v'⟩ := kv
+    unfold dicSet
+    by_cases h1 : k' = k
+    · exact ⟨[], t, by simp [h1], by simp, fun x hx => List.mem_cons_of_mem _ hx⟩
+    · simp only [h1, if_false]
+      by_cases h2 : ltBytes k k' = true
+      · exact ⟨[], (k', v') :: t, by simp [h2], by simp, fun x hx => hx⟩
+      · obtain ⟨l1, l2, he, ha, hb⟩ := ih
+        refine ⟨(k', v') :: l1, l2, by simp [h2, he], ?_, fun x hx => List.mem_cons_of_mem _ (hb x hx)⟩
+        intro x hx
+        rcases List.mem_cons.mp hx with h | h
+        · rw [h]; exact List.mem_cons_self
+        · exact List.mem_cons_of_mem _ (ha x h)
+
+
+/-! ### one header line -/
+
+/-- a field name: not empty, no colon, no white space (so also no CR / LF) -/
+def WFName (n : Bytes) : Prop := n ≠ [] ∧ ∀ c ∈ n, c ≠ 58 ∧ cIsSpace c = false
+
+/-- a field value: not empty, no LF, no white space at either end -/
+def WFValue (v : Bytes) : Prop :=
+  v ≠ [] ∧ (∀ c ∈ v, c ≠ 10) ∧ (∀ c, v.head? = some c → isSpace c = false) ∧ (∀ c, v.getLast? = some c → isSpace c = false)
+
+theorem cIsSpace_isSpace {c : UInt8} (h : cIsSpace c = false) : isSpace c = false ∧ c ≠ 10 ∧ c ≠ 13 := by
+  unfold cIsSpace at h
+  simp only [Bool.or_eq_false_iff, Bool.and_eq_false_iff, beq_eq_false_iff_ne, decide_eq_false_iff_not] at h
+  obtain ⟨h32, h2⟩ := h
+  have hx : ∀ k : UInt8, 9 ≤ k → k ≤ 13 → c ≠ k := by
+    intro k hk1 hk2 hck; subst hck
+    rcases h2 with h | h
+    · exact h hk1
+    · exact h hk2
+  refine ⟨?_, hx 10 (by decide) (by decide), hx 13 (by decide) (by decide)⟩
+  unfold isSpace
+  simp [h32, hx 10 (by decide) (by decide), hx 13 (by decide) (by decide), hx 9 (by decide) (by decide)]
+
+theorem trimStart_id {s : Bytes} (h : ∀ c, s.head? = some c → isSpace c = false) : trimStart s = s := by
+  unfold trimStart
+  cases s with
+  | nil => rfl
+  | cons a t =>
+    have := h a rfl
+    rw [List.dropWhile_cons_of_neg (by simp [this])]
+
+theorem trimEnd_id {s : Bytes} (h : ∀ c, s.getLast? = some c → isSpace c = false) : trimEnd s = s := by
+  unfold trimEnd
+  have : s.reverse.dropWhile isSpace = s.reverse := by
+    cases hr : s.reverse with
+    | nil => rfl
+    | cons a t =>
+      have hl : s.getLast? = some a := by
+        rw [← List.head?_reverse, hr]; rfl
+      have := h a hl
+      rw [List.dropWhile_cons_of_neg (by simp [this])]
+  rw [this, List.reverse_reverse]
+
+theorem trimEnd_cr (s : Bytes) : trimEnd (s ++ [13]) = trimEnd s := by
+  unfold trimEnd
+  rw [List.reverse_append]
+  simp only [List.reverse_cons, List.reverse_nil, List.nil_append, List.singleton_append]
+  rw [List.dropWhile_cons_of_pos (by decide)]
+
+theorem indexOfByte_append (c : UInt8) (n t : Bytes) (hn : ∀ x ∈ n, x ≠ c) : indexOfByte c (n ++ c :: t) = some n.length := by
+  induction n with
+  | nil => simp [indexOfByte]
+  | cons a n ih =>
+    have ha : (a == c) = false := by simpa using hn a List.mem_cons_self
+    simp only [List.cons_append, indexOfByte, ha, Bool.false_eq_true, if_false, List.length_cons]
+    rw [ih (fun x hx => hn x (List.mem_cons_of_mem _ hx))]
+    rfl
+
+theorem getLast?_append_ne {a b : Bytes} (hb : b ≠ []) : (a ++ b).getLast? = b.getLast? := by
+  cases b with
+  | nil => exact absurd rfl hb
+  | cons x t =>
+    rw [List.getLast?_append]
+    have : (x :: t).getLast? = some ((x :: t).getLast (by simp)) := List.getLast?_eq_some_getLast (by simp)
+    rw [this]; rfl
+
+/-- the text of a header line (without its LF) parses back into its name and value -/
+theorem header_line_parse {n v : Bytes} (hn : WFName n) (hv : WFValue v) :
+    let line := n ++ [58, 32] ++ v ++ [13]
+    line ≠ [13] ∧ cIsSpace (line.headD 0) = false ∧
+      indexOfByte 58 (trimmed line) = some n.length ∧
+      (trimmed line).take n.length = n ∧ trimmed ((trimmed line).drop (n.length + 1)) = v := by
+  obtain ⟨hn0, hnc⟩ := hn
+  obtain ⟨hv0, _, hvh, hvl⟩ := hv
+  obtain ⟨a, n', hna⟩ := List.exists_cons_of_ne_nil hn0
+  have ha := hnc a (by rw [hna]; exact List.mem_cons_self)
+  intro line
+  have hline : line = n ++ [58, 32] ++ v ++ [13] := rfl
+  -- trimmed line = n ++ ": " ++ v
+  have ht : trimmed line = n ++ 58 :: ([32] ++ v) := by
+    unfold trimmed
+    have h1 : trimStart line = line := by
+      apply trimStart_id
+      intro c hc
+      rw [hline, hna] at hc
+      simp only [List.cons_append, List.head?_cons, Option.some.injEq] at hc
+      subst hc
+      exact (cIsSpace_isSpace ha.2).1
+    rw [h1, hline, trimEnd_cr]
+    have h2 : trimEnd (n ++ [58, 32] ++ v) = n ++ [58, 32] ++ v := by
+      apply trimEnd_id
+      intro c hc
+      rw [getLast?_append_ne hv0] at hc
+      exact hvl c hc
+    rw [h2]; simp
+  refine ⟨?_, ?_, ?_, ?_, ?_⟩
+  · rw [hline, hna]; simp
+  · rw [hline, hna]; simp only [List.cons_append, List.headD_cons]; exact ha.2
+  · rw [ht]; exact indexOfByte_append 58 n _ (fun x hx => (hnc x hx).1)
+  · rw [ht]; simp
+  · rw [ht]
+    have : (n ++ 58 :: ([32] ++ v)).drop (n.length + 1) = [32] ++ v := by
+      rw [show n ++ 58 :: ([32] ++ v) = (n ++ [58]) ++ ([32] ++ v) by simp]
+      rw [show n.length + 1 = (n ++ [58]).length by simp, List.drop_left]
+    rw [this]
+    unfold trimmed
+    have h1 : trimStart ([32] ++ v) = v := by
+      unfold trimStart
+      simp only [List.singleton_append]
+      rw [List.dropWhile_cons_of_pos (by decide)]
+      exact trimStart_id hvh
+    rw [h1]
+    exact trimEnd_id hvl
+
+
+/-! ### the header block -/
+
+/-- a header line fits into `readLine`'s 16001-byte limit -/
+def FitsLine (n v : Bytes) : Prop := n.length + v.length + 3 ≤ 16001
+
+theorem readHeaders_step (f : Nat) (i : Inp) (h : Dic) (ln lv n v tail : Bytes) (hi : Live i)
+    (hn : WFName n) (hv : WFValue v) (hfit : FitsLine n v)
+    (hd : i.data = n ++ [58, 32] ++ v ++ crlf ++ tail) :
+    readHeadersLoop (f + 1) i h ln lv =
+      readHeadersLoop f (i.advance (n.length + 2 + v.length + 2)) (setHeader h n v) n v ∧
+    (i.advance (n.length + 2 + v.length + 2)).data = tail := by
+  have hd' : i.data = (n ++ [58, 32] ++ v ++ [13]) ++ 10 :: tail := by rw [hd]; simp [crlf]
+  have hnolf : ∀ c ∈ n ++ [58, 32] ++ v ++ [13], c ≠ 10 := by
+    intro c hc
+    simp only [List.mem_append, List.mem_cons, List.mem_singleton, List.not_mem_nil, or_false] at hc
+    rcases hc with ((h1 | h1) | h1) | h1
+    · exact (cIsSpace_isSpace (hn.2 c h1).2).2.1
+    · rcases h1 with h1 | h1 <;> subst h1 <;> decide
+    · exact hv.2.1 c h1
+    · subst h1; decide
+  have hll : (n ++ [58, 32] ++ v ++ [13]).length = n.length + 2 + v.length + 1 := by simp; omega
+  obtain ⟨hrl, hrest⟩ := readLine_line hi _ tail hnolf (by rw [hll]; unfold FitsLine at hfit; omega) hd'
+  obtain ⟨p1, p2, p3, p4, p5⟩ := header_line_parse hn hv
+  constructor
+  · rw [readHeadersLoop, hrl]
+    simp only [p1, if_false, p2, Bool.false_eq_true, p3, p4, p5]
+    rw [hll]
+  · rw [hll] at hrest; exact hrest
+
+theorem readHeaders_end (f : Nat) (i : Inp) (h : Dic) (ln lv rest : Bytes) (hi : Live i) (hd : i.data = crlf ++ rest) :
+    readHeadersLoop (f + 1) i h ln lv = (h, i.advance 2) ∧ (i.advance 2).data = rest := by
+  have hd' : i.data = [13] ++ 10 :: rest := by rw [hd]; simp [crlf]
+  obtain ⟨hrl, hrest⟩ := readLine_line hi [13] rest (by decide) (by decide) hd'
+  constructor
+  · rw [readHeadersLoop, hrl]; simp
+  · exact hrest
+
+/-- every line of a header list is well formed -/
+def WFHeaders (hs : List (Bytes × Bytes)) : Prop := ∀ nv ∈ hs, WFName nv.1 ∧ WFValue nv.2 ∧ FitsLine nv.1 nv.2
+
+theorem headerLines_length (hs : Dic) : hs.length ≤ (headerLines hs).length := by
+  induction hs with
+  | nil => simp [headerLines]
+  | cons nv t ih => obtain ⟨n, v⟩ := nv; simp [headerLines, crlf]; omega
+
+/-- reading the header lines the sender wrote applies `setHeader` to each, in order, and stops after the blank line -/
+theorem readHeaders_lines : ∀ (hs : List (Bytes × Bytes)) (f : Nat) (i : Inp) (h : Dic) (ln lv rest : Bytes), Live i →
+    WFHeaders hs → hs.length < f → i.data = headerLines hs ++ crlf ++ rest →
+    readHeadersLoop f i h ln lv =
+      (hs.foldl (fun d nv => setHeader d nv.1 nv.2) h, i.advance ((headerLines hs).length + 2)) ∧
+    (i.advance ((headerLines hs).length + 2)).data = rest := by
+  intro hs
+  induction hs with
+  | nil =>
+    intro f i h ln lv rest hi _ hf hd
+    obtain ⟨f0, rfl⟩ : ∃ f0, f = f0 + 1 := ⟨f - 1, by simp at hf; omega⟩
+    have := readHeaders_end f0 i h ln lv rest hi (by simpa [headerLines] using hd)
+    simpa [headerLines] using this
+  | cons nv t ih =>
+    intro f i h ln lv rest hi hwf hf hd
+    obtain ⟨n, v⟩ := nv
+    obtain ⟨f0, rfl⟩ : ∃ f0, f = f0 + 1 := ⟨f - 1, by simp at hf; omega⟩
+    have h0 := hwf (n, v) List.mem_cons_self
+    have hd1 : i.data = n ++ [58, 32] ++ v ++ crlf ++ (headerLines t ++ crlf ++ rest) := by
+      rw [hd]; simp [headerLines, List.append_assoc]
+    obtain ⟨hstep, hdat⟩ := readHeaders_step f0 i h ln lv n v _ hi h0.1 h0.2.1 h0.2.2 hd1
+    have hi' : Live (i.advance (n.length + 2 + v.length + 2)) := hi
+    obtain ⟨hrec, hdat2⟩ := ih f0 _ (setHeader h n v) n v rest hi' (fun x hx => hwf x (List.mem_cons_of_mem _ hx))
+      (by simp at hf; omega) hdat
+    have hlen : (headerLines ((n, v) :: t)).length + 2 = n.length + 2 + v.length + 2 + ((headerLines t).length + 2) := by
+      simp [headerLines, crlf]; omega
+    constructor
+    · rw [hstep, hrec, advance_advance, hlen]; rfl
+    · rw [hlen, ← advance_advance]; exact hdat2
+
+
 end AslProofs.HttpFrame
